@@ -506,6 +506,18 @@ class Mix(Scenario):
                 if cancels:
                     out.append(('C09.cancel-reaches-peer', 'C09.cancel-reaches-peer | %s' % cfg, 'CANCEL was sent but never delivered'))
                 continue
+            # frames are handled one at a time by the receiver task: while a handler coroutine is suspended on that endpoint
+            # (slow-handler scenarios) a CANCEL that has been fed is not processed before the handler is released
+            changed = True
+            while changed:
+                changed = False
+                q0 = next((i for i in range(rxi, len(log)) if log[i][0] == 'q'), len(log))
+                for si, ev in enumerate(log[:q0]):
+                    if ev[0] == 'api' and ev[1] == resp_ep and ev[2] == 'handler' and ev[3] == 'suspended':
+                        ri = next((i for i in range(si, len(log)) if log[i][0] == 'act' and log[i][1] == 'rel' + ev[4] and log[i][2] == 'release'), len(log))
+                        if ri > rxi:
+                            rxi = ri
+                            changed = True
             qi = next((i for i in range(rxi, len(log)) if log[i][0] == 'q'), len(log))
             pname = 'pub' + it.tag + 'd'
             finished_before = False
